@@ -84,8 +84,8 @@ def _routes(args):
                     obs = scenes.run_scene(rows, None)
                 else:
                     f = os.path.join(tmp, 'p.yml')
-                    with open(f, 'w') as fh:
-                        YAML(typ='safe').dump(assignment, fh)
+                    from .. import yamlspell
+                    yamlspell.write(f, assignment, random.Random(f'{seed}:yaml:{k}'))   # hand-spelled, YAML 1.2
                     amp.set_prms(f)
                     obs = scenes.run_scene(rows, None)
                 results[route] = (sysworld.tree(obs['eff']) if 'eff' in obs else None, metamorph.observe(obs))
@@ -201,8 +201,8 @@ def _hist(args):
 
 def run(chk):
     quick = chk.tier == 'quick'
-    n_routes = 48 if quick else 1200
-    n_hist = 120 if quick else 3000
+    n_routes = 96 if quick else 1200
+    n_hist = 300 if quick else 3000
     common.import_ampycloud()
     from ampycloud import dynamic
     top = list(dynamic.get_default_prms())
